@@ -74,7 +74,8 @@ func (c *Ctx) globalMapLiteral(pkg, name string) (map[string]string, bool) {
 }
 
 func c09a(c *Ctx) {
-	tbl, ok := c.globalMapLiteral("parser", "textSuffixes")
+	tsName := c.W.GlobalNamed("parser", "textSuffixes", "map[string]string")
+	tbl, ok := c.globalMapLiteral("parser", tsName)
 	if !ok {
 		c.Unk("anchor:parser.textSuffixes", "-", "terminator table textSuffixes not found")
 		return
@@ -92,7 +93,7 @@ func c09a(c *Ctx) {
 	if fn == nil {
 		return
 	}
-	lk := "@parser.textSuffixes[$2]"
+	lk := "@parser." + tsName + "[$2]"
 	var okUnknown, okHas, okAppend bool
 	for _, r := range returnsOf(fn) {
 		must := c.mustLits(fn, r.Block())
@@ -235,9 +236,8 @@ func c09c(c *Ctx) {
 	}
 	if fn := c.Fn("parser.Parser.ParseProgram"); fn != nil {
 		ok := false
-		for _, a := range allocsOf(fn, "ast", "Text") {
-			use := lastUse(a)
-			v, t, n := c.fieldAtUse(fn, a, "Value", use), c.fieldAtUse(fn, a, "StringType", use), c.fieldAtUse(fn, a, "Name", use)
+		for _, tv := range c.builtTexts(fn) {
+			v, t, n := tv.f["Value"], tv.f["StringType"], tv.f["Name"]
 			base := strings.TrimSuffix(v, ".Value")
 			if strings.HasSuffix(v, ".Value") && t == base+".StringType" && n == base+".Name.Value" {
 				ok = true
@@ -1012,4 +1012,41 @@ func unExtract(v ssa.Value) ssa.Value {
 		return ex.Tuple
 	}
 	return v
+}
+
+// builtText: an ast.Text value appended to a list in fn, with its fields in fn's terms (the
+// value may be a composite literal or the result of a constructor helper).
+type builtText struct {
+	f   map[string]string
+	pos string
+}
+
+func (c *Ctx) builtTexts(fn *ssa.Function) []builtText {
+	var out []builtText
+	for _, ci := range callsIn(fn) {
+		call, ok := ci.(*ssa.Call)
+		if !ok || calleeName(call) != "builtin:append" || len(call.Call.Args) < 2 {
+			continue
+		}
+		for _, e := range varargElems(call.Call.Args[1]) {
+			if !typeIs(e.Type(), "ast", "Text") {
+				continue
+			}
+			var f map[string]string
+			pos := c.W.Pos(call.Pos())
+			if ld, isLd := e.(*ssa.UnOp); isLd {
+				if a, isA := ld.X.(*ssa.Alloc); isA {
+					f = c.valueFields(fn, a, ld)
+					pos = c.W.Pos(a.Pos())
+				}
+			}
+			if f == nil {
+				f = c.valueFields(fn, e, call)
+			}
+			if f != nil {
+				out = append(out, builtText{f, pos})
+			}
+		}
+	}
+	return out
 }
